@@ -3,11 +3,11 @@
 //! tier: quick
 //! fns: linfa_preprocessing::linear_scaling::LinearScaler::transform (dataset form), linfa_preprocessing::norm_scaling::NormScaler::transform (dataset form), linfa_preprocessing::whitening::FittedWhitener::transform (dataset form)
 //@ extract LINEAR from algorithms/linfa-preprocessing/src/linear_scaling.rs anchor "fn transform(&self, x: DatasetBase<ArrayBase<D, Ix2>, T>) -> DatasetBase<Array2<F>, T> {" body
-//@ rewrite LINEAR "DatasetBase::new(" => "DatasetV::new("
+//@ rewrite? LINEAR "DatasetBase::new(" => "DatasetV::new("
 //@ extract NORM from algorithms/linfa-preprocessing/src/norm_scaling.rs anchor "fn transform(&self, x: DatasetBase<ArrayBase<D, Ix2>, T>) -> DatasetBase<Array2<F>, T> {" body
-//@ rewrite NORM "DatasetBase::new(" => "DatasetV::new("
+//@ rewrite? NORM "DatasetBase::new(" => "DatasetV::new("
 //@ extract WHITEN from algorithms/linfa-preprocessing/src/whitening.rs anchor "fn transform(&self, x: DatasetBase<ArrayBase<D, Ix2>, T>) -> DatasetBase<Array2<F>, T> {" body
-//@ rewrite WHITEN "DatasetBase::new(" => "DatasetV::new("
+//@ rewrite? WHITEN "DatasetBase::new(" => "DatasetV::new("
 //@ expect-fail vacuity_guard_passthrough
 use vstd::prelude::*;
 verus! {
@@ -37,6 +37,14 @@ impl DatasetV {
     pub fn new(records: ArrTok, targets: ArrTok) -> (r: DatasetV)
         ensures r.records.id@ == records.id@, r.targets.id@ == targets.id@, r.weights.id@ == 0, r.feature_names.id@ == 0, r.target_names.id@ == 0,
     { unimplemented!() }
+    // DatasetBase::with_records (rustdoc: "overwrites the records ... also invalidates the weights and feature/target names")
+    pub fn with_records(self, records: ArrTok) -> (r: DatasetV)
+        ensures r.records.id@ == records.id@, r.targets.id@ == self.targets.id@, r.weights.id@ == 0, r.feature_names.id@ == 0, r.target_names.id@ == 0,
+    { DatasetV { records: records, targets: self.targets, weights: ArrTok { id: Ghost(0) }, feature_names: NamesTok { id: Ghost(0) }, target_names: NamesTok { id: Ghost(0) } } }
+    pub fn with_targets(self, targets: ArrTok) -> (r: DatasetV)
+        ensures r.records.id@ == self.records.id@, r.targets.id@ == targets.id@, r.weights.id@ == self.weights.id@,
+            r.feature_names.id@ == self.feature_names.id@, r.target_names.id@ == self.target_names.id@,
+    { DatasetV { records: self.records, targets: targets, weights: self.weights, feature_names: self.feature_names, target_names: self.target_names } }
     pub fn with_weights(self, w: ArrTok) -> (r: DatasetV)
         ensures r.records.id@ == self.records.id@, r.targets.id@ == self.targets.id@, r.weights.id@ == w.id@,
             r.feature_names.id@ == self.feature_names.id@, r.target_names.id@ == self.target_names.id@,
